@@ -722,6 +722,13 @@ func genC04(r *Run) {
 		m[2] = byte(r.Pick(0, 5, 16, 17, 200, 255))
 		add(m)
 	}
+	// the fixed-width name fields in every shape (text of every length around the ends of the field, then NULs, or a
+	// NUL followed by stale octets), with and without options behind them
+	for _, m := range nameFieldShapes(hdr) {
+		add(m)
+		add(m[:240])
+		r.Add(eV4Reenc, m)
+	}
 	// random / mutated packets up to 1500 octets
 	nr := r.N(1500, 100000)
 	for i := 0; i < nr; i++ {
@@ -969,4 +976,36 @@ func (r *Run) edge(n int) []byte {
 		}
 	}
 	return b
+}
+
+
+// nameFieldShapes: a valid packet (header hdr + message type + End) whose sname / file field holds text of length
+// 0, 1, 2, half, width-2, width-1, width (no terminator at all), followed by NUL padding, by one NUL then stale text,
+// or by stale high octets up to a NUL in the last position
+func nameFieldShapes(hdr []byte) [][]byte {
+	var out [][]byte
+	for _, fld := range []struct{ off, width int }{{44, 64}, {108, 128}} {
+		for _, n := range []int{0, 1, 2, fld.width / 2, fld.width - 2, fld.width - 1, fld.width} {
+			for _, tail := range []int{0, 1, 2} {
+				m := append(append([]byte{}, hdr...), 53, 1, 5, 255)
+				for i := 0; i < n; i++ {
+					m[fld.off+i] = byte('a' + i%26)
+				}
+				if n < fld.width {
+					switch tail {
+					case 1:
+						for i := n + 1; i < fld.width; i++ {
+							m[fld.off+i] = byte('A' + i%26)
+						}
+					case 2:
+						for i := n + 1; i < fld.width-1; i++ {
+							m[fld.off+i] = 0x80 | byte(i)
+						}
+					}
+				}
+				out = append(out, m)
+			}
+		}
+	}
+	return out
 }
